@@ -219,8 +219,8 @@ impl Conjunction for NaturalBound {
             (Variant(Unbounded), _) | (_, Variant(Unbounded)) => Variant(Unbounded),
             (Invariant(Zero), nonzero) | (nonzero, Invariant(Zero)) => nonzero,
             (Variant(Bounded(lhs)), Variant(Bounded(rhs))) => Variant(Bounded(
-                lhs.checked_add(rhs.into())
-                    .expect("overflow determining conjunction of natural bound"),
+                // Sums that cannot be represented are at least as large as the largest word.
+                lhs.saturating_add(rhs.into()),
             )),
         }
     }
@@ -249,8 +249,8 @@ impl Product for NaturalBound {
             (Variant(Unbounded), _) | (_, Variant(Unbounded)) => Variant(Unbounded),
             (Invariant(Zero), _) | (_, Invariant(Zero)) => Invariant(Zero),
             (Variant(Bounded(lhs)), Variant(Bounded(rhs))) => Variant(Bounded(
-                lhs.checked_mul(rhs)
-                    .expect("overflow determining product of natural bound"),
+                // Products that cannot be represented are at least as large as the largest word.
+                lhs.saturating_mul(rhs),
             )),
         }
     }
@@ -683,10 +683,7 @@ impl BoundedVariantRange {
     pub fn translation(self, vector: usize) -> Self {
         use BoundedVariantRange::{Both, Lower, Upper};
 
-        let expect_add = move |m: NonZeroUsize| {
-            m.checked_add(vector)
-                .expect("overflow determining translation of range")
-        };
+        let expect_add = move |m: NonZeroUsize| m.saturating_add(vector);
         match self {
             Both { lower, extent } => Both {
                 lower: expect_add(lower),
@@ -738,9 +735,19 @@ impl BoundedVariantRange {
     }
 
     fn upper_from_lower_extent(lower: NonZeroUsize, extent: NonZeroUsize) -> NonZeroUsize {
-        lower
-            .checked_add(extent.get())
-            .expect("overflow determining upper bound of range")
+        lower.saturating_add(extent.get())
+    }
+}
+
+impl BoundedVariantRange {
+    // The bounds of a range may saturate and converge on the largest word. Such a range has no
+    // representable upper bound and so that bound is considered open.
+    fn from_saturated(range: NaturalRange) -> VariantRange {
+        match range {
+            Variance::Variant(range) => range,
+            Variance::Invariant(n) => NonZeroUsize::new(n)
+                .map_or(Unbounded, |n| Bounded(BoundedVariantRange::Lower(n))),
+        }
     }
 }
 
@@ -748,8 +755,12 @@ impl Conjunction for BoundedVariantRange {
     type Output = Self;
 
     fn conjunction(self, rhs: Self) -> Self::Output {
-        match NaturalRange::by_bound_with(self.into(), rhs.into(), ops::conjunction) {
-            Variance::Variant(Bounded(range)) => range,
+        match Self::from_saturated(NaturalRange::by_bound_with(
+            self.into(),
+            rhs.into(),
+            ops::conjunction,
+        )) {
+            Bounded(range) => range,
             _ => unreachable!(),
         }
     }
@@ -785,10 +796,11 @@ impl Product for BoundedVariantRange {
     type Output = VariantRange;
 
     fn product(self, rhs: Self) -> Self::Output {
-        match NaturalRange::by_bound_with(self.into(), rhs.into(), ops::product) {
-            Variance::Variant(range) => range,
-            _ => unreachable!(),
-        }
+        Self::from_saturated(NaturalRange::by_bound_with(
+            self.into(),
+            rhs.into(),
+            ops::product,
+        ))
     }
 }
 
@@ -796,10 +808,14 @@ impl Product<NonZeroUsize> for BoundedVariantRange {
     type Output = Self;
 
     fn product(self, rhs: NonZeroUsize) -> Self::Output {
-        use Variance::{Invariant, Variant};
+        use Variance::Invariant;
 
-        match NaturalRange::by_bound_with(self.into(), Invariant(rhs.into()), ops::product) {
-            Variant(Bounded(range)) => range,
+        match Self::from_saturated(NaturalRange::by_bound_with(
+            self.into(),
+            Invariant(rhs.into()),
+            ops::product,
+        )) {
+            Bounded(range) => range,
             _ => unreachable!(),
         }
     }
